@@ -234,7 +234,7 @@ def run_unit(a):
     (idx, cc, work, src, cfg) = a
     p = os.path.join(work, 'u%d.c' % idx)
     open(p, 'w').write(src)
-    flags = {'fcommon': ['-fcommon'], 'fno-common': ['-fno-common'], 'fcommon-pic': ['-fcommon', '-fPIC'], 'fno-common-pic': ['-fno-common', '-fPIC']}[cfg]
+    flags = FLAGS[cfg]
     res = {}
     for kind, cmd in (('chibicc', [cc, '-c'] + flags), ('gcc', ['gcc', '-std=gnu11', '-O0', '-w', '-c', '-fno-stack-protector'] + flags),
                       ('clang', ['clang', '-std=gnu11', '-O0', '-w', '-c', '-fno-stack-protector'] + flags)):
@@ -444,7 +444,7 @@ def run(ctx):
     cases = []
     for i in range(nunits):
         src, info = gen_unit(rng, i)
-        cases.append((src, info, ['fcommon', 'fno-common', 'fcommon-pic', 'fno-common-pic'][i % 4] if i % 8 < 6 else rng.choice(['fcommon', 'fno-common'])))
+        cases.append((src, info, ['fcommon', 'fno-common', 'fcommon-pic', 'fno-common-pic', 'fcommon-last', 'fno-common-last'][i % 6]))
     for idx, res in core.pmap(run_unit, [(i, cc, work, c[0], c[2]) for i, c in enumerate(cases)], chunksize=8):
         src, info, cfg = cases[idx]
         ctx.evaluations += 1
@@ -469,7 +469,7 @@ def run(ctx):
                 continue
             ctx.count('symbols_compared')
             pat = info[name]['pattern']
-            ctx.saw('sym:%s|%s' % (pat, cfg.replace('-pic', '')))
+            ctx.saw('sym:%s|%s' % (pat, cfg.replace('-pic', '').replace('-last', '')))
             ex, eg, ec = x.get(name), g.get(name), c.get(name)
             if eg != ec and (eg is None or ec is None or eg[:4] != ec[:4]):
                 ctx.count('symbols_reference_ambiguous')
@@ -536,4 +536,5 @@ def run(ctx):
     ctx.extra['declaration_patterns'] = {'external': EXT_PATTERNS, 'internal': INT_PATTERNS, 'tls': TLS_PATTERNS, 'incomplete-array': ARR_PATTERNS, 'function': sorted(set(FN_KINDS))}
 
 
-FLAGS = {'fcommon': ['-fcommon'], 'fno-common': ['-fno-common'], 'fcommon-pic': ['-fcommon', '-fPIC'], 'fno-common-pic': ['-fno-common', '-fPIC']}
+FLAGS = {'fcommon': ['-fcommon'], 'fno-common': ['-fno-common'], 'fcommon-pic': ['-fcommon', '-fPIC'], 'fno-common-pic': ['-fno-common', '-fPIC'],
+         'fcommon-last': ['-fno-common', '-fcommon'], 'fno-common-last': ['-fcommon', '-fPIC', '-fno-common']}      # the last of contradicting options wins
